@@ -27,14 +27,17 @@ EvScan ==
          ls == ApplyAll(Seeds[e.seed], e.muts)
          inc == IF e.seed = "s1" /\ e.byteop.k = "none" THEN Inconsistent(ls, 70) ELSE {}
          \* a cut that ends before the last line of the text truncates a record
+         \* (a cut at column 0 right after a record terminator leaves complete records only)
          truncated == genbank /\ e.byteop.k = "trunc" /\ e.byteop.i < Len(ls) /\ e.variant # "trunc@0"
+                      /\ ~(e.col = 0 /\ e.byteop.i > 1 /\ ls[e.byteop.i - 1].kind = "END")
          oneRecord == Len(e.declared) = 1 /\ Len(e.lens) = 1
          vs == If(e.outcome \in {"panic", "hang"}, {<<"total", e.outcome>>})
                \cup If(e.outcome = "values" /\ e.lens # e.reported, {<<"len-vs-bytes", "-">>})
                \cup If(e.outcome = "values" /\ genbank /\ oneRecord /\ e.lens[1] # e.declared[1] /\ e.seed = "s1" /\ ~ContigOnly(ls), {<<"short-read", "-">>})
                \cup UNION {If(e.outcome = "values", {<<"strict", c>>}) : c \in inc}
                \cup If(truncated /\ e.outcome = "values", {<<"strict", "truncated">>})
-         tag(v) == IF v[1] = "strict" /\ v[2] = "indent" /\ "LenientLines" \in Devs THEN "dev:LenientLines" ELSE "-"
+         tag(v) == IF v[1] = "strict" /\ v[2] = "indent" /\ "LenientLines" \in Devs /\ e.seed = "s1" /\ OnlyLenientIndent(ls)
+                   THEN "dev:LenientLines" ELSE "-"
      IN verdicts' = verdicts \cup {<<l, e.case, MutName(e), v[1], v[2], tag(v)>> : v \in vs}
 
 EvStr ==
